@@ -673,6 +673,9 @@ def _branches(vals: List[ast.AST]) -> List[ast.AST]:
     return out
 
 
+_NATIVE_BUILTINS = {"str": str, "int": int, "float": float, "bool": bool, "list": list, "tuple": tuple, "dict": dict, "NoneType": type(None)}
+
+
 def serialize_encoders(repo: Repo, R: Report, rule: str) -> None:
     """Every way `serialize` (and the helpers whose result it returns) turns a value into bytes.
 
@@ -736,6 +739,26 @@ def serialize_encoders(repo: Repo, R: Report, rule: str) -> None:
                         R.ok(rule, UTILS, qn, where, f"delegates to {targets[0].name}", r.lineno)
                         continue
                 if not native and isinstance(v, ast.Call) and call_name(v) == "bytes" and len(v.args) == 1 and not v.keywords and txt(v.args[0]) in buffers:
+                    # bytes obtained by calling a method of the value (`b = obj.to_bytes()`): a JSON-native builtin type
+                    # that happens to have that method (int.to_bytes() gives one raw byte for 0..255) would leave the
+                    # canonical encoder through this door unless a dominating guard excludes it
+                    leak: Set[str] = set()
+                    meth = None
+                    srcs = assigned_value(fn, v.args[0].id) if isinstance(v.args[0], ast.Name) else [v.args[0]]
+                    for sv in srcs:
+                        if isinstance(sv, ast.Call) and isinstance(sv.func, ast.Attribute) and dotted_name(sv.func.value) == p:
+                            meth = sv.func.attr
+                            have = {n for n, t in _NATIVE_BUILTINS.items() if hasattr(t, meth)}
+                            excluded: Set[str] = set()
+                            for c in conds:
+                                if isinstance(c, ast.UnaryOp) and isinstance(c.op, ast.Not) and isinstance(c.operand, ast.Call) and call_name(c.operand) == "isinstance" and len(c.operand.args) == 2 and dotted_name(c.operand.args[0]) == p:
+                                    excluded |= _type_names(c.operand.args[1])
+                            if "int" in excluded:
+                                excluded.add("bool")
+                            leak |= have - excluded
+                    if leak:
+                        R.violation(rule, UTILS, qn, where, f"a value of type {'/'.join(sorted(leak))} has a `{meth}` method of its own, so it is turned into bytes here instead of by the canonical JSON encoder (int.to_bytes() yields one raw byte for 0..255: 65 and b'A', 1 and True get the same bytes): _stable_equal misses such a rewrite and different contents share a digest", r.lineno)
+                        continue
                     R.ok(rule, UTILS, qn, where, "the bytes-like object's own bytes", r.lineno)
                     continue
                 text = _renders_as_text(v, p)
